@@ -646,6 +646,32 @@ func runC02_19(c *core.Ctx) {
 		}
 		return in
 	}
+	// the syscall on the function's own, never reassigned parameters
+	const fCalled = 2
+	ownCall := func(call *ast.CallExpr) bool {
+		return flow.IsPkgFunc(f.Info, call, unixPkg, "Writev") && len(call.Args) == 2 &&
+			flow.ObjOf(f.Info, seeThrough(f, call.Args[0])) == types.Object(f.param(0)) && flow.ObjOf(f.Info, seeThrough(f, call.Args[1])) == types.Object(f.param(1)) &&
+			assignCount(f, f.param(0)) == 1 && assignCount(f, f.param(1)) == 1
+	}
+	var callResults []types.Object
+	p.Node = func(b *flow.Block, i int, n ast.Node, in uint64) uint64 {
+		for _, call := range flow.Calls(n) {
+			if ownCall(call) {
+				in |= fCalled
+			}
+		}
+		return in
+	}
+	ast.Inspect(f.Decl.Body, func(n ast.Node) bool {
+		if as, ok := n.(*ast.AssignStmt); ok && len(as.Rhs) == 1 {
+			if call, ok := ast.Unparen(as.Rhs[0]).(*ast.CallExpr); ok && ownCall(call) {
+				for _, l := range as.Lhs {
+					callResults = append(callResults, flow.ObjOf(f.Info, l))
+				}
+			}
+		}
+		return true
+	})
 	sol := f.Graph().Solve(p)
 	k := 0
 	sol.AtExit(func(b *flow.Block, facts uint64) {
@@ -656,9 +682,18 @@ func runC02_19(c *core.Ctx) {
 		k++
 		good := false
 		if len(r.Results) == 1 {
-			if call, ok := ast.Unparen(r.Results[0]).(*ast.CallExpr); ok && flow.IsPkgFunc(f.Info, call, unixPkg, "Writev") && len(call.Args) == 2 &&
-				flow.ObjOf(f.Info, call.Args[0]) == types.Object(f.param(0)) && flow.ObjOf(f.Info, call.Args[1]) == types.Object(f.param(1)) {
+			if call, ok := ast.Unparen(r.Results[0]).(*ast.CallExpr); ok && ownCall(call) {
 				good = true
+			}
+		}
+		// n, err := unix.Writev(fd, iov); …; return n, err
+		if len(r.Results) == 2 && facts&fCalled != 0 && len(callResults) == 2 {
+			if flow.ObjOf(f.Info, r.Results[0]) == callResults[0] && flow.ObjOf(f.Info, r.Results[1]) == callResults[1] && callResults[0] != nil {
+				v0, _ := callResults[0].(*types.Var)
+				v1, _ := callResults[1].(*types.Var)
+				if v0 != nil && v1 != nil && assignCount(f, v0) == 1 && assignCount(f, v1) == 1 {
+					good = true
+				}
 			}
 		}
 		if len(r.Results) == 2 && facts&fEmpty != 0 {
